@@ -18,14 +18,13 @@ else
   (cd "$SCR/repo" && patch -p1 -s < "$PATCH") || { echo "PATCH-FAILED"; exit 9; }
 fi
 [ "$1" = "--" ] && shift
-mkdir -p "$SCR/ev"; cp -r "$HERE/evidence/." "$SCR/ev/" 2>/dev/null
+mkdir -p "$SCR/ev"
 rc=0
 for id in "$@"; do
-  VERIF_REPO="$SCR/repo" "$HERE/check" "$id" --tier "${TIER:-quick}" > "$SCR/out.$id" 2>&1
+  VERIF_EVIDENCE_DIR="$SCR/ev" VERIF_REPO="$SCR/repo" "$HERE/check" "$id" --tier "${TIER:-quick}" > "$SCR/out.$id" 2>&1
   r=$?
   echo "== $id exit=$r: $(grep -c '^VIOLATION' "$SCR/out.$id") violation line(s)"
   grep -E '^(VIOLATION|INCONCLUSIVE)' "$SCR/out.$id" | cut -c1-260 | head -${SHOW:-4}
   [ $r -ne 0 ] && rc=1
 done
-cp -r "$SCR/ev/." "$HERE/evidence/" 2>/dev/null
 exit $rc
